@@ -39,6 +39,9 @@ def corpus_cfgs():
     out.append(dict(base, s=0.05, sample_kwargs=dict(adaptive=True, min_step=0.3)))
     out.append(dict(base, s=0.05, sample_kwargs=dict(adaptive=True, min_step=0.4, target_efficiency=0.9)))
     out.append(dict(base, s=0.05, sample_kwargs=dict(adaptive=True, max_n_steps=12)))
+    # a scalar target efficiency given as a NumPy scalar of either width (what indexing an array of settings gives)
+    out.append(dict(base, sample_kwargs=dict(adaptive=True, target_efficiency=np.float32(0.5))))
+    out.append(dict(base, sample_kwargs=dict(adaptive=True, target_efficiency=np.float64(0.25))))
     # runs that STOP AT THE CAP with beta < 1 (their last payload is a finished run at a temperature below 1; resuming it adds nothing)
     out.append(dict(base, sample_kwargs=dict(adaptive=False, n_steps=10, max_n_steps=4)))
     out.append(dict(base, s=0.05, sample_kwargs=dict(adaptive=True, min_step=0.01, max_n_steps=3)))
